@@ -2,6 +2,7 @@ package main
 
 import (
 	"fmt"
+	"strconv"
 	"go/ast"
 	"go/token"
 	"go/types"
@@ -935,6 +936,47 @@ func (fr *frame) loopEnv(li *loopInfo, phiVal func(*ssa.Phi) string, st *state) 
 func (fr *frame) lookupLocal(name string, at *ssa.BasicBlock, st *state) (binding, bool) {
 	if b, ok := fr.params[name]; ok {
 		return b, true
+	}
+	// ret_<callee>: the result of the (single) call of <callee> in this function, where that call dominates the point
+	if strings.HasPrefix(name, "ret_") {
+		want := strings.TrimPrefix(name, "ret_")
+		idx := -1
+		if k := strings.LastIndex(want, "_"); k > 0 {
+			if n, err := strconv.Atoi(want[k+1:]); err == nil {
+				want, idx = want[:k], n // ret_<callee>_<k>: k-th result of a multi-result call
+			}
+		}
+		var found *ssa.Call
+		n := 0
+		for _, b := range fr.fn.Blocks {
+			for _, ins := range b.Instrs {
+				c, ok := ins.(*ssa.Call)
+				if !ok {
+					continue
+				}
+				cn := ""
+				if f := c.Call.StaticCallee(); f != nil {
+					cn = f.Name()
+				} else if c.Call.IsInvoke() {
+					cn = c.Call.Method.Name()
+				}
+				if cn == want {
+					found = c
+					n++
+				}
+			}
+		}
+		if n == 1 && (found.Block() == at || found.Block().Dominates(at)) {
+			if t, ok := fr.vals[found]; ok && t != "tuple" && idx < 0 {
+				return binding{term: t, typ: found.Type()}, true
+			}
+			if tup, isT := found.Type().(*types.Tuple); isT && idx >= 0 && idx < tup.Len() {
+				if t, ok := fr.e.tupleVals[tupleKey{found, fr, idx}]; ok {
+					return binding{term: t, typ: tup.At(idx).Type()}, true
+				}
+			}
+		}
+		return binding{}, false
 	}
 	// SSA register name (escape hatch)
 	if strings.HasPrefix(name, "t") {
